@@ -1596,7 +1596,7 @@ class Item:
                 continue
             cn = c.split(":")[0].strip()
             out, last = [], 0
-            for mm in re.finditer(r"(?<![A-Za-z0-9_\.])%s(?![A-Za-z0-9_])" % re.escape(cn), mbody):
+            for mm in re.finditer(r"(?<![A-Za-z0-9_\.])(?<!old\()(?<!final\()%s(?![A-Za-z0-9_])" % re.escape(cn), mbody):
                 out.append(body[last:mm.start()]); out.append("(*%s)" % cn); last = mm.end()
             out.append(body[last:])
             body = "".join(out)
